@@ -3,7 +3,7 @@ under /tmp/rb (removed afterwards); records meta.json["robustness"] = {check: {s
 import glob, json, os, subprocess, sys
 from concurrent.futures import ThreadPoolExecutor
 
-SEEDS = (0, 1, 2, 3)
+SEEDS = (0, 2)
 sel = sys.argv[1:]
 head = subprocess.run(["git", "-C", "/repo", "rev-parse", "HEAD"], capture_output=True).stdout.decode().strip()
 os.makedirs("/tmp/rb", exist_ok=True)
@@ -35,7 +35,8 @@ def work(meta_p):
         subprocess.run(["git", "-C", "/repo", "worktree", "remove", "--force", wt], capture_output=True)
 
 
-metas = [p for p in sorted(glob.glob("/verif/seeded/*/meta.json")) if not sel or any(s in p for s in sel)]
-with ThreadPoolExecutor(max_workers=3) as ex:
+metas = [p for p in sorted(glob.glob("/verif/seeded/*/meta.json"))
+         if (not sel or any(s in p for s in sel)) and "robustness" not in json.load(open(p))]
+with ThreadPoolExecutor(max_workers=2) as ex:
     for sid, res in ex.map(work, metas):
         print(sid, res, flush=True)
